@@ -36,7 +36,7 @@ REQUIRED_COUNTERS = ["separator_switch_checked", "object_reuse_checked", "parse_
 METHOD = {"=": "EQUALS", "^": "STARTS_WITH", "$": "ENDS_WITH", "%": "CONTAINS", ">": "GREATER_THAN",
           "<": "LESS_THAN", ">=": "GREATER_THAN_OR_EQUAL", "<=": "LESS_THAN_OR_EQUAL", "=~": "REGEX"}
 COLLOP = {"": "NONE", "+": "ADDITION", "-": "SUBTRACTION", "&": "INTERSECTION"}
-SPECIAL_CHARS = list(". / [ ] ( ) ' \" ^ $ %".split()) + [" "]
+SPECIAL_CHARS = list(". / [ ] ( ) ' \" ^ $ % \\".split()) + [" "]       # a backslash is key text too (it must survive next to every other one)
 EXTRA_CHARS = list("& ! = < > ~ , : -".split())
 
 
@@ -208,7 +208,7 @@ def reduced():
 
 
 def render_variant(rng, segs, sep):
-    style = rng.choice(["bs", "bs", "q", "qt"])
+    style = rng.choice(["bs", "bs", "q", "qt", "min", "min"])
     text = gp.render(segs, sep, style=style)
     return text
 
